@@ -244,6 +244,10 @@ def val_ite(c, a, b):
         return SOpt(z3.Not(zb(c)), b)
     if isinstance(b, SNone) and isinstance(a, SArr):
         return SOpt(zb(c), a)
+    if isinstance(b, SNone) and isinstance(a, (int, z3.ArithRef)) and not isinstance(a, bool):
+        return SOpt(zb(c), zi(a))           # Optional[int]: a slot of  [None] * n  that is filled in later
+    if isinstance(a, SNone) and isinstance(b, (int, z3.ArithRef)) and not isinstance(b, bool):
+        return SOpt(z3.Not(zb(c)), zi(b))
     raise Unsupported('ite of %s and %s' % (type(a).__name__, type(b).__name__))
 
 
@@ -435,7 +439,7 @@ class SList:
         """immutable view (same ref) for old() references"""
         v = SList(self.ref, self.length, self.fn, None if self.items is None else list(self.items), self.kind)
         v.transients = dict(getattr(self, 'transients', {}) or {})
-        for extra in ('slice_of', 'split_points', 'role_tag', 'index_role', 'role_strict'):
+        for extra in ('slice_of', 'split_points', 'role_tag', 'index_role', 'role_strict', 'stride_writes'):
             if extra in self.__dict__:
                 setattr(v, extra, self.__dict__[extra])
         return v
